@@ -132,9 +132,9 @@ static std::vector<uint8_t> encodeSong(const JV &song)
             else if(k == "loopstart") putMeta(tr, 6, "loopStart");
             else if(k == "loopend") putMeta(tr, 6, "loopEnd");
             else if(k == "text") putMeta(tr, (int)e.get("ty", 1), bytesOf(e["b"]));
-            else if(k == "sysex")
+            else if(k == "sysex" || k == "sysex7")      // sysex7: an F7 "escape / continuation" event (no leading F0 in the payload)
             {
-                tr.push_back(0xF0); const JV &b = e["b"]; putVlq(tr, (unsigned long)b.a.size());
+                tr.push_back(k == "sysex7" ? 0xF7 : 0xF0); const JV &b = e["b"]; putVlq(tr, (unsigned long)b.a.size());
                 for(size_t q = 0; q < b.a.size(); ++q) tr.push_back((uint8_t)b.a[q].num());
             }
             else if(k == "eot") { tr.push_back(0xFF); tr.push_back(0x2F); tr.push_back(0); }
